@@ -1,6 +1,6 @@
 (* C14 — with an asynchronous credential store, pipelined frames wait for the verdict. *)
 From Coq Require Import ZArith List Bool.
-From HP Require Import Bytes Sha1 Wire Broker BrokerSpec BrokerInv BrokerStep BrokerTrace BrokerLocal BrokerTimer BrokerProps BrokerProps2.
+From HP Require Import Bytes Sha1 Wire Broker BrokerSpec BrokerInv BrokerStep BrokerTrace BrokerLocal BrokerTimer BrokerProps BrokerProps2 BrokerBlame BrokerParked.
 Import ListNotations.
 
 Section C14.
@@ -46,6 +46,27 @@ Proof. exact (failed_lookup_rejects store async_store). Qed.
    holds for asynchronous stores too: [run_good] quantifies over async_store *)
 Theorem C14_good_always : forall h, Good store async_store (run h).
 Proof. exact (good_always bname store async_store). Qed.
+
+(* ---- over whole histories ----
+   waiting q s h: every event of the stretch h (played from s) is either not q's own (any event of another connection,
+   or a tick while q is on no deadline) or bytes arriving for q.  So: for every history h1 after which q has a lookup in
+   flight (reading paused), and EVERY such continuation h2, the parked connection is untouched - in particular the frames
+   behind its OP_AUTH are still buffered, byte for byte, and its lookups still queued: nothing was acted on, nothing
+   dropped - and when the verdict l then arrives, the state is the one the synchronous authenticate produces on that
+   buffer at that moment (an exception drops the connection). *)
+Theorem C14_parked_until_verdict : forall h1 h2 q i dg rest l,
+  async_store = true -> made (conns (run h1) q) = true ->
+  pending (conns (run h1) q) = (i, dg) :: rest -> rpaused (conns (run h1) q) = true ->
+  waiting bname store async_store q (run h1) h2 ->
+  untouched (conns (run h1) q) (conns (run (h1 ++ h2)) q) /\
+  buf (conns (run (h1 ++ h2)) q) = buf (conns (run h1) q) /\
+  pending (conns (run (h1 ++ h2)) q) = (i, dg) :: rest /\
+  run (h1 ++ h2 ++ [LookupDone q (RLook l)]) =
+    match authenticate (ppq store async_store q) q i dg l (modc q (set_pending rest) (run (h1 ++ h2))) with
+    | Raise s3 => cl q s3
+    | r' => st r'
+    end.
+Proof. exact (parked_until_verdict bname store async_store). Qed.
 End C14.
 
 Print Assumptions C14_auth_parks.
@@ -54,3 +75,4 @@ Print Assumptions C14_parked_untouched.
 Print Assumptions C14_completion.
 Print Assumptions C14_failed_lookup.
 Print Assumptions C14_good_always.
+Print Assumptions C14_parked_until_verdict.
